@@ -35,3 +35,32 @@ func genStats(n int) {
 	}
 	fmt.Printf("hit=%d miss=%d parsefail=%d\n", hit, miss, parseFail)
 }
+
+// modelStats (flag -modelstats) compares the reference model with the library on model paths.
+func modelStats(n int) {
+	simrt.Seed(777)
+	dg := docGen{}
+	u := &uniq{}
+	mism, shown := 0, 0
+	for i := 0; i < n; i++ {
+		doc := u.doc(dg)
+		p := genModelPath(false)
+		r, err := jsonpath.Retrieve(p.Text, doc)
+		m := modelEval(p.Model, doc)
+		got, want := "ERR", "ERR"
+		if err == nil {
+			got = canon(r)
+		}
+		if len(m) > 0 {
+			want = canon(m)
+		}
+		if got != want {
+			mism++
+			if shown < 12 {
+				shown++
+				fmt.Printf("%-40s %s\n   lib   %s (%v)\n   model %s\n", p.Text, clip(canon(doc), 200), clip(got, 200), err, clip(want, 200))
+			}
+		}
+	}
+	fmt.Printf("mismatches=%d of %d\n", mism, n)
+}
